@@ -86,6 +86,37 @@ def jobs_for(prop, both, repo):
     return jobs
 
 
+# which property a clause belongs to (a variant may serve several properties: one symbolic run, many
+# clauses).  Clauses with an explicit Cnn: prefix count for the properties named there; the generic
+# clauses of the interface contract for the properties below; loop invariants, lemmas, call-site
+# assertions support every clause of the run and count for all properties of the variant.
+CLAUSE_FAMILIES = {
+    'I-idx': {'C02', 'C01', 'C16', 'C20'}, 'I-len': {'C02', 'C01', 'C04', 'C16', 'C20'},
+    'I-iter': {'C01', 'C16', 'C20', 'C10', 'C12'}, 'I-keys': {'C03', 'C01', 'C16', 'C20'},
+    'I-key': {'C03', 'C01', 'C16', 'C20'}, 'I-items': {'C03', 'C01'}, 'flag': {'C02', 'C13'},
+    'getitem-other': {'C01', 'C02', 'C16'}, 'copy': {'C13', 'C20', 'C10', 'C11'},
+}
+
+
+def clause_counts_for(name, prop):
+    import re as _re
+    tail = name.split(':')
+    # explicit property prefixes anywhere in the clause name, e.g. "post[return#0]:C10:cache-invariant..."
+    explicit = set()
+    for part in tail:
+        for m_ in _re.findall(r'C\d\d', part.split('-')[0] if part[:1] == 'C' else ''):
+            explicit.add(m_)
+        if _re.fullmatch(r'C\d\d(/C\d\d)*', part):
+            explicit.update(part.split('/'))
+    if explicit:
+        return prop in explicit
+    for part in tail:
+        fam = CLAUSE_FAMILIES.get(part)
+        if fam is not None:
+            return prop in fam
+    return True
+
+
 def load_known():
     p = os.path.join(VERIF, 'known_findings.json')
     if not os.path.exists(p):
@@ -186,6 +217,8 @@ def main():
             faults.append((r['label'], r['reason']))
             continue
         for o in r['obligations']:
+            if not clause_counts_for(o['name'], prop):
+                continue      # a clause of another property proved in the same symbolic run
             n_ob += 1
             solver_s += o['seconds']
             solver_max = max(solver_max, o['seconds'])
